@@ -489,6 +489,46 @@ fn check_names(sink: &mut Sink, c: &Case, p: &Params, toks: &[Tok]) -> bool {
     good
 }
 
+/// Independent of the implementation: is there, at or below the start node, an element in no
+/// namespace for which the nearest declaration of the empty prefix (its own declarations, its
+/// ancestors' up to the root of the whole tree) binds a namespace?  Such a tree has no XML
+/// spelling without an `xmlns=""` declaration, so serialisation must refuse it.
+fn no_namespace_element_under_default(c: &Case) -> bool {
+    fn own_default(t: &GTree) -> Option<usize> {
+        t.kids.iter().take_while(|k| matches!(k.v, GValue::Namespace(..))).find_map(|k| match k.v {
+            GValue::Namespace(0, ns) => Some(ns),
+            _ => None,
+        })
+    }
+    fn below(t: &GTree, default: usize, ns_of: &dyn Fn(usize) -> usize) -> bool {
+        if !t.is_normal() {
+            return false;
+        }
+        let mut d = default;
+        if let GValue::Element(n) = t.v {
+            if let Some(ns) = own_default(t) {
+                d = ns;
+            }
+            if ns_of(n) == 0 && d != 0 {
+                return true;
+            }
+        }
+        t.kids.iter().any(|k| below(k, d, ns_of))
+    }
+    let mut default = 0;
+    let mut cur = c.tree;
+    for &i in &c.start_path {
+        if let GValue::Element(_) = cur.v {
+            if let Some(ns) = own_default(cur) {
+                default = ns;
+            }
+        }
+        cur = &cur.kids[i];
+    }
+    let ns_of = |n: usize| c.vocab.names[n].1;
+    below(cur, default, &ns_of)
+}
+
 // ---------------------------------------------------------------------------------------------
 
 pub fn check(c: &mut Case, p: &Params, obs: &Observed, sink: &mut Sink) {
@@ -517,6 +557,16 @@ pub fn check(c: &mut Case, p: &Params, obs: &Observed, sink: &mut Sink) {
         Res::Ok(toks) => check_names(sink, c, p, toks),
         _ => true,
     };
+    // C10, no guard any more (/repo a32c6f4): a no-namespace element inside the scope of a
+    // default namespace must be refused, never written
+    if no_namespace_element_under_default(c) {
+        match &obs.token_string {
+            Res::Ok(s) => fail(sink, "C10", "C10:no-namespace-element-under-default-namespace-is-written", &format!("serialisation succeeds with {:?}; an element in no namespace sits in the scope of a default namespace", short(s)), c, p),
+            Res::Err(e) if e.starts_with("err:MissingPrefix") || e.starts_with("err:NamespaceInProcessingInstruction") => sink.stat("oracle.C10.no-namespace-under-default-refused"),
+            Res::Err(e) => fail(sink, "C10", "C10:no-namespace-element-under-default-namespace-other-error", &format!("serialisation fails with {}", e), c, p),
+            Res::Panic => {}
+        }
+    }
     let original = canon(c.xot, c.start);
     let mut base_reparse: Option<Result<CNode, String>> = None;
     if c.representable {
